@@ -50,6 +50,54 @@ def run_tz(case) -> dict:
     return {"viol": viol, "digest": f"tz{p.returncode}", "key": common.key_hash(case), "fired": {"timezone_env": 1}, "probes": {"non_utc_timezone": 1}, "vtime_ns": 0}
 
 
+def run_overlap(case) -> dict:
+    """["overlap", n, ft, tick_ticks]: n async protects on one cache are started together while the wall clock advances with every
+    reading and passes an interval boundary in between.  Each blob must name an interval that contains an instant of its OWN call
+    (from its start to its completion); which calls overlap, and how, is the simulated loop's business."""
+    import asyncio
+
+    import dpapi_ng
+
+    _, n, ft, tick_ticks = case[:4]
+    stagger_us = case[4] if len(case) > 4 else 0  # the calls are started that many (virtual) microseconds apart
+    world = W.World(ft & 0xFFFFFFFF)
+    record: list = []
+    cache = offline.new_cache(RK)
+    spans: t.List[t.Optional[tuple]] = [None] * n
+    world.clock.set_filetime(ft)
+    world.clock.tick_per_read_ns = tick_ticks * 100
+
+    async def one(k):
+        if stagger_us and k:
+            await asyncio.sleep(k * stagger_us / 1e6)
+        start = world.clock.filetime()
+        blob = await dpapi_ng.async_ncrypt_protect_secret(b"x", SID, root_key_identifier=RK.root_key_id, cache=cache)
+        spans[k] = (start, world.clock.filetime(), blob)
+
+    async def main():
+        await asyncio.gather(*(one(k) for k in range(n)))
+
+    with world.installed(ctx_factory=drive.stub_ctx_factory(CFG, record)):
+        out = drive.classify(lambda: drive.run_async(world, main))
+    viol = None
+    probes = {"overlapping_async_protects": 1}
+    if out.kind != "ok":
+        viol = common.violation("C09", "protect-failed", "async-overlap", *drive.exc_sig(out), "", f"overlapping protects at filetime {ft} failed: {out.exc!r}")
+    else:
+        for k, sp in enumerate(spans):
+            start, end, blob = sp
+            p = cms.parse_blob(blob)["key_identifier"]
+            got = (p["l0"], p["l1"], p["l2"])
+            lo, hi = gkdi.interval_of_filetime(start), gkdi.interval_of_filetime(end)
+            if lo != hi:
+                probes["boundary_crossed_during_call"] = 1
+            if not (lo <= got <= hi):
+                viol = common.violation("C09", "interval", "async-overlap", "past" if got < lo else "future", "", "",
+                                        f"call {k + 1} of {n} overlapping protects ran from filetime {start} ({lo}) to {end} ({hi}) but its blob names {got}")
+                break
+    return {"viol": viol, "digest": world.digest(), "key": common.key_hash(case), "fired": {"clk_set": 1}, "probes": probes, "vtime_ns": world.stats.get("vtime_ns", 0)}
+
+
 def run(case) -> dict:
     """case: [config, flavour, ft, sub_ns, [earlier fts...]]"""
     config, fl, ft, sub_ns, history = case[:5]
@@ -131,13 +179,13 @@ class C09(common.Check):
     rule = ("case = (cache configuration rk|seed, flavour, clock instant in 100 ns ticks + sub-tick ns, earlier instants on the same cache). "
             "Enumerated: every L0 boundary 1970..2200 (L0 315..513) x every tick offset -64..+64; L1 and L2 boundaries in 40 L0 epochs x "
             "offsets; sub-tick offsets 0/1/50/99 ns; PRNG instants across 1970..2200; clock jumps backwards/forwards between calls sharing "
-            "a cache; the same instants in fresh interpreters whose process timezone is not UTC; a clock that advances 1..1000 ticks per reading so that one call straddles an L2/L1/L0 boundary (any interval containing an "
+            "a cache; the same instants in fresh interpreters whose process timezone is not UTC; several async protects started together on one cache while the ticking clock passes a boundary (each blob must name an interval of its own call's span); a clock that advances 1..1000 ticks per reading so that one call straddles an L2/L1/L0 boundary (any interval containing an "
             "instant between its first and last reading is accepted); 'seed' cases obtain an envelope from the reference DC late in the epoch and protect after the clock jumped back. "
             "Non-trivial = instant within 64 ticks of an interval boundary or a history with a clock jump; distinct = distinct tuple.")
     components = {"client": "real (ncrypt_protect_secret / async, KeyCache, _get_protection_gke_from_cache)", "clock": "simulated (dpapi_ng._client.time seam)",
                   "DC": "model (RefDC) in the 'seed' configuration", "parser of the emitted blob": "model (ref.cms)"}
     assumptions = ["interval formula in exact integer arithmetic on FILETIME ticks (ref.gkdi.interval_of_filetime)"]
-    required_fired = ("from_cache", "from_cached_seed", "clk_jump_back", "clock_ticks_per_read", "uncovered_offline_raises", "non_utc_timezone")
+    required_fired = ("from_cache", "from_cached_seed", "clk_jump_back", "clock_ticks_per_read", "uncovered_offline_raises", "non_utc_timezone", "overlapping_async_protects")
 
     def exhaustive(self, tier):
         return True
@@ -194,6 +242,13 @@ class C09(common.Check):
             for k, tick_ticks in ((1, 1), (2, 1), (1, 2), (3, 2), (1, 1000)):
                 for base in (l0 * 1024 * B, (l0 * 1024 + 32 * (l0 % 31 + 1)) * B, (l0 * 1024 + l0 % 1000 + 1) * B):
                     out.append(["rk", "sync" if (l0 + k) % 2 else "async", base - k, 0, [], tick_ticks * 100])
+        # several async protects started together on one cache while the (ticking) clock passes a boundary
+        for l0 in range(330, 500, 5 if tier == "quick" else 1):
+            for n_ in (2, 3):
+                for k, tick_ticks in ((1, 1), (2, 3), (1, B), (5, 40)):
+                    for base in (l0 * 1024 * B, (l0 * 1024 + l0 % 1000 + 1) * B):
+                        for stagger in (0, 20, 300, 2000):
+                            out.append(["overlap", n_, base - k, tick_ticks, stagger])
         # the process runs in a timezone other than UTC (fresh interpreter per case)
         for k, tz in enumerate(("IST-5:30", "EST5EDT", "NZST-12", "UTC+11")):
             for j in range(4 if tier == "quick" else 40):
@@ -215,10 +270,12 @@ class C09(common.Check):
     def run_case(self, case):
         if case[0] == "tz":
             return run_tz(case)
+        if case[0] == "overlap":
+            return run_overlap(case)
         return run(case)
 
     def shrink(self, case):
-        if case[0] == "tz":
+        if case[0] in ("tz", "overlap"):
             return
         config, fl, ft, sub, hist = case[:5]
         if len(case) > 5:
@@ -237,6 +294,8 @@ class C09(common.Check):
     def sample_repr(self, case, res):
         if case[0] == "tz":
             return {"config": "rk", "flavour": case[1], "filetime": case[2], "process_timezone": case[3]}
+        if case[0] == "overlap":
+            return dict(zip(("kind", "concurrent_protects", "filetime", "clock_ticks_per_reading", "start_stagger_us"), case))
         return {"config": case[0], "flavour": case[1], "filetime": case[2], "sub_ns": case[3], "earlier_instants": case[4],
                 "interval": gkdi.interval_of_filetime(case[2])}
 
